@@ -14,6 +14,8 @@ Decided structurally, per message:
   C09.sync      every IPhreeqc function that clears or appends to the error / warning reporters re-synchronises the line views
                 (update_errors) before it returns normally - except the two message sinks, whose callers (the run/load entry
                 points) re-synchronise once after the engine returns (checked)
+  C09.printfree every path through print_all clears the solver-read flag phase::pr_in, also when nothing is printed (one
+                structural instance of clause (e); the clause as a whole stays undecided)
   C09.sel       per-user-number switches are consulted for the block being written, not the current user number
                 (shared with C13.keyparam)
 Not decided: (e) toggling sinks does not change results (numerical); byte identity across the file system (buffering, open
@@ -135,6 +137,7 @@ def run(P, R, tier):
     rebuild_rules(P, R)
     sync_rules(P, R)
     sel_rules(P, R)
+    printfree_rule(P, R)
 
 
 def check_base(P, R, base, ost, on):
@@ -419,3 +422,59 @@ def sel_rules(P, R):
         else:
             R.violation("C09.sel", inst, "%s(int %s) ignores its parameter: the sink of block %s is governed by the switch of the current user number" % (q, n, n),
                         file=f["file"], line=f["line"], function=f["q"])
+
+
+def printfree_rule(P, R):
+    """Solver-visible flags that the printing path resets must be reset when printing is off as well, otherwise computed
+    results depend on whether an output sink is enabled.  Instance: the Peng-Robinson flag phase::pr_in is cleared by
+    print_saturation_indices (when it prints) and by set_pr_in_false; every path through print_all - including the
+    `pr.all == FALSE` early return taken when both output sinks are off - must pass one of the functions that clear it."""
+    R.rule("C09.printfree", "every path through print_all clears the solver-read flag phase::pr_in, whether or not anything is printed", minimum=1)
+    f = P.one("Phreeqc::print_all")
+    clearers = set()
+    for key, g in P.functions.items():
+        for t, how, line, n in T.writes(g["body"]):
+            root, steps = T.access_path(t)
+            if steps and steps[-1] == ("f", "phase::pr_in") and how == "=" and n[0] == "Bin" and T.lit_value(n[4]) == 0:
+                clearers.add(g["q"])
+    if not clearers:
+        R.anchor_missing("C09.printfree", "no function clears phase::pr_in")
+        return
+    # unconditional clearers: functions whose every path clears the flag are not distinguished from conditional ones here;
+    # the printing branch relies on print_saturation_indices + the explicit fallback, which the CFG below sees as two calls
+    cfg = T.CFG(f)
+
+    def is_clear(n):
+        return T.is_node(n) and any(T.callee_q(c) == "Phreeqc::set_pr_in_false" for c in T.calls(n))
+    # remove clear nodes and test whether the exit is still reachable
+    seen, st = {cfg.entry}, [cfg.entry]
+    while st:
+        x = st.pop()
+        if is_clear(cfg.nodes[x]["n"]):
+            continue
+        for s_ in cfg.nodes[x]["succ"]:
+            if s_ not in seen:
+                seen.add(s_)
+                st.append(s_)
+    # the printing branch: `print_saturation_indices(); if (!pr.saturation_indices) set_pr_in_false();` - the path on which the
+    # fallback is skipped is the one where print_saturation_indices printed (and cleared); accept it when that call precedes
+    ok = cfg.exit not in seen
+    if not ok:
+        # allow paths that pass print_saturation_indices directly followed by the guarded fallback
+        seen2, st = {cfg.entry}, [cfg.entry]
+        while st:
+            x = st.pop()
+            n = cfg.nodes[x]["n"]
+            if is_clear(n) or (T.is_node(n) and any(T.callee_q(c) == "Phreeqc::print_saturation_indices" for c in T.calls(n))):
+                continue
+            for s_ in cfg.nodes[x]["succ"]:
+                if s_ not in seen2:
+                    seen2.add(s_)
+                    st.append(s_)
+        ok = cfg.exit not in seen2 and "Phreeqc::print_saturation_indices" in clearers
+    if ok:
+        R.ok("C09.printfree", "print_all:pr_in", "cleared on every path (set_pr_in_false / print_saturation_indices)")
+    else:
+        R.violation("C09.printfree", "print_all:pr_in", "a path through print_all (e.g. the pr.all == FALSE early return taken when the output file and string are both off) "
+                    "does not clear phase::pr_in: Peng-Robinson state of the previous step leaks into the next one only when nothing is printed",
+                    file=f["file"], line=f["line"], function=f["q"])
